@@ -61,7 +61,7 @@ def to_xml(doc, comments=False):
         for c in s["sections"]:
             sec(c, lvl + 1)
         out.append("%s</section>" % ("  " * lvl))
-    for k in ("author", "version", "date", "repository"):
+    for k in ("id", "author", "version", "date", "repository"):
         if doc.get(k) is not None:
             el(k, doc[k], 1)
     for tag, text in doc.get("unsupported", []):
@@ -121,7 +121,7 @@ def to_dict(doc):
         d["sections"] = [sec(c) for c in s["sections"]]
         return d
     dd = {}
-    for k in ("author", "version", "date", "repository"):
+    for k in ("id", "author", "version", "date", "repository"):
         if doc.get(k) is not None:
             dd[k] = doc[k]
     for tag, text in doc.get("unsupported", []):
@@ -183,7 +183,7 @@ def expected(doc):
     alts, dropped, notes = {}, [], set()
     import datetime as _dt
     date = _dt.date.fromisoformat(doc["date"]) if doc.get("date") else None
-    m = {"k": "doc", "id": None, "author": doc.get("author"), "version": doc.get("version"), "date": date,
+    m = {"k": "doc", "id": valid_id(doc["id"]) if doc.get("id") else None, "author": doc.get("author"), "version": doc.get("version"), "date": date,
          "repository": doc.get("repository"), "sections": []}
     for tag, text in doc.get("unsupported", []):
         dropped.append(("doc-element", tag))
